@@ -247,7 +247,7 @@ class Unit:
            ctx_ok_or=(), external_body=False, props=None, safety_props=None, which=0,
            canary=False, rename=None, mode_exec=True, opens_invariants=None, no_unwind=False,
            sig_rewrites=(), header_attrs=(), assume_termination=False, container=None, bare=False,
-           no_body=False, ctx_sites=(), impl_which=0, synth=None, tail_proof=None, proof_label=None):
+           no_body=False, ctx_sites=(), impl_which=0, synth=None, tail_proof=None, proof_label=None, transform=None, head_proof=None):
         """cut a function from /repo and splice a contract in.
 
         key: 'Type::name' or 'name'.  impl: regex of the impl header type (default = Type from key).
@@ -313,6 +313,11 @@ class Unit:
             self.drop(f'fn {key}: /{pat}/ -> {rep!r}', n)
         if re.search(r'\blet\s+\[', code_mask(body)):
             body = self._desugar_array_let(body)
+        if transform:
+            nl = body.count('\n')
+            body = transform(body)
+            if body.count('\n') != nl:
+                raise ValueError('transform must keep the number of newlines')
 
         # ---- contract text
         fnkey = key
@@ -362,6 +367,16 @@ class Unit:
             if spec.get('decreases'):
                 t += f'            decreases {spec["decreases"]},\n'
             inserts.append((brace, t))
+            if spec.get('before'):
+                inserts.append((kwpos, ' ' + spec['before'].strip() + ' '))
+            if spec.get('body_start') or spec.get('body_end') or spec.get('after'):
+                close = match_close(code_mask(body), brace)
+                if spec.get('body_start'):
+                    inserts.append((brace + 1, ' ' + spec['body_start'].strip() + ' '))
+                if spec.get('body_end'):
+                    inserts.append((close, ' ' + spec['body_end'].strip() + ' '))
+                if spec.get('after'):
+                    inserts.append((close + 1, ' ' + spec['after'].strip() + ' '))
         if len(lh) > len(loops) and not external_body:
             # a loop without invariant: Verus will complain about decreases; keep going, it reports
             pass
@@ -374,6 +389,8 @@ class Unit:
             inserts.append((ls, text.rstrip('\n') + '\n'))
         if tail_proof:
             inserts.append((body.rfind('}'), tail_proof.rstrip('\n') + '\n'))
+        if head_proof:
+            inserts.append((body.find('{') + 1, ' ' + head_proof.strip() + ' '))
         inserts.sort(key=lambda x: x[0])
 
         pos = 0
@@ -526,7 +543,7 @@ class Unit:
     # ------------------------------------------------------------------ output
     def render(self):
         """returns (text, line_origin) ; line_origin[i] = origin dict of unit line i+1 (or None)"""
-        head = 'use vstd::prelude::*;\n#[allow(unused_imports)]\nuse std::collections::{HashMap, HashSet};\nverus! {\n'
+        head = 'use vstd::prelude::*;\n#[allow(unused_imports)]\nuse std::collections::{HashMap, HashSet};\n#[allow(unused_imports)]\nuse vstd::std_specs::iter::IteratorSpec;\nverus! {\n'
         tail = '\n} // verus!\nfn main() {}\n'
         allsegs = [(head, None)] + self.segments + [(tail, None)]
         full_parts = []
